@@ -12,6 +12,15 @@ position-driven C++ parser), decodes every record and checks that
   * the ASCII column shows the printable bytes (blank for the others and outside the data),
   * lines are 16-aligned, ascending, start with the first and end with the last line, and a line is
     absent only with COLLAPSE_ZERO_LINES when it is an all-zero interior line.
+
+Round 5: harness/C09_r5.cc (section `floatgrid`) writes EVERY numeric token it gives to the `%` / `%%` constructs to
+<outdir>/fgrid.<shard>.dat, one record per line:
+
+    <f|d> <decimal text> <bit pattern the harness's reference (glibc strtof / strtod) assigns, hex>
+
+nearest_bits() below re-derives the bit pattern with exact integer arithmetic from the definition (the binary32 /
+binary64 value nearest to the exact decimal, ties to the even mantissa, gradual underflow, overflow to infinity) and
+every record must agree; for doubles Python's own float() is consulted as a third opinion.
 Only the standard library is used.
 """
 import glob
@@ -100,6 +109,85 @@ def decode(start, size, flags, data, out):
     return None
 
 
+_POW10 = {}
+
+
+def _pow10(n):
+    v = _POW10.get(n)
+    if v is None:
+        v = _POW10[n] = 10 ** n
+    return v
+
+
+_NUM = re.compile(r"^(-?)([0-9]*)(?:\.([0-9]*))?(?:[eE]([+-]?[0-9]+))?$")
+
+
+def nearest_bits(text, p, ebits):
+    """Bit pattern of the IEEE 754 binary value (p mantissa bits incl. the hidden one, ebits exponent bits) nearest to
+    the decimal `text`, ties to even.  Exact integer arithmetic only."""
+    m = _NUM.match(text)
+    if not m or not (m.group(2) or m.group(3)):
+        raise ValueError("not a plain decimal: %r" % text[:80])
+    neg, ip, fp, ex = m.group(1) == "-", m.group(2) or "", m.group(3) or "", int(m.group(4) or "0")
+    D = int(ip + fp or "0")
+    E = ex - len(fp)
+    bias = (1 << (ebits - 1)) - 1
+    emin, emax = 1 - bias, bias
+    sign = (1 << (p - 1 + ebits)) if neg else 0
+    if D == 0:
+        return sign
+    num, den = (D * _pow10(E), 1) if E >= 0 else (D, _pow10(-E))
+    # e = floor(log2(num / den))
+    e = num.bit_length() - den.bit_length()
+    if (num >= (den << e)) if e >= 0 else ((num << -e) >= den):
+        pass
+    else:
+        e -= 1
+    e = max(e, emin)
+    q = e - (p - 1)  # weight of the last mantissa bit
+    n2, d2 = (num, den << q) if q >= 0 else (num << -q, den)
+    mant, rem = divmod(n2, d2)
+    if 2 * rem > d2 or (2 * rem == d2 and (mant & 1)):
+        mant += 1
+    if mant == (1 << p):
+        mant >>= 1
+        e += 1
+    if e > emax:
+        return sign | (((1 << ebits) - 1) << (p - 1))  # infinity
+    if mant < (1 << (p - 1)):
+        return sign | mant  # denormal (e == emin) or zero
+    return sign | ((e + bias) << (p - 1)) | (mant - (1 << (p - 1)))
+
+
+def check_fgrid(files):
+    import struct
+    validated, viol = 0, {}
+
+    def bad(key, desc):
+        v = viol.setdefault(key, {"key": key, "section": "floatgrid", "count": 0, "desc": desc})
+        v["count"] += 1
+
+    for path in files:
+        with open(path) as f:
+            for rec in f:
+                parts = rec.split()
+                if len(parts) != 3 or parts[0] not in ("f", "d") or len(parts[2]) != (8 if parts[0] == "f" else 16):
+                    continue  # cut-off line of a shard that died mid-write
+                kind, text, ref = parts[0], parts[1], int(parts[2], 16)
+                want = nearest_bits(text, 24, 8) if kind == "f" else nearest_bits(text, 53, 11)
+                if want != ref:
+                    bad("pyref:reference-conversion-is-not-the-nearest-%s" % ("float" if kind == "f" else "double"),
+                        "decimal %s%s: harness reference %0*x, exact arithmetic gives %0*x" % (text[:120], "..." if len(text) > 120 else "", len(parts[2]), ref, len(parts[2]), want))
+                    continue
+                if kind == "d":
+                    third = struct.unpack("<Q", struct.pack("<d", float(text)))[0]
+                    if third != want:
+                        bad("pyref:python-float-disagrees", "decimal %s: float() gives %016x, exact arithmetic %016x" % (text[:120], third, want))
+                        continue
+                validated += 1
+    return validated, list(viol.values())
+
+
 def run(outdir, tier, repo):
     validated, violations, seen_keys = 0, [], set()
     files = sorted(glob.glob(os.path.join(outdir, "dump.*.dat"))) + sorted(glob.glob(os.path.join(outdir, "edges.*.dat")))
@@ -127,4 +215,10 @@ def run(outdir, tier, repo):
                         if v["key"] == res[0] and v["section"] == section:
                             v["count"] += 1
     notes = ["python dump decoder: %d records from %d shard files, %d decoded back to the dumped bytes" % (records, len(files), validated)]
+    gfiles = sorted(glob.glob(os.path.join(outdir, "fgrid.*.dat")))
+    if gfiles:
+        gval, gviol = check_fgrid(gfiles)
+        validated += gval
+        violations += gviol
+        notes.append("python exact-arithmetic float/double conversion: %d numeric tokens of %d shard files agree with the harness reference (strtof / strtod)" % (gval, len(gfiles)))
     return {"validated": validated, "violations": violations, "notes": notes}
